@@ -179,7 +179,82 @@ def svd_gradients():
     return "; ".join(bad[:4]) if bad else None
 
 
-TABLE = {"dense_path_gradients": dense_path_gradients, "implicit_gradients": implicit_gradients, "davidson_gradients": davidson_gradients,
+def batched_partial_degeneracy():
+    """a batch in which only one element has coinciding eigenvalues: every element gets the gradient it gets alone"""
+    rng = np.random.RandomState(17)
+    n = 4
+    mats = [_base(n, rng, False, [0.5, 0.5, 1.7, 3.0]), _base(n, rng, False, [-1.0, 0.2, 1.1, 2.5])]
+    W = torch.tensor(rng.randn(n, n), dtype=torch.float64)
+    W = W + W.T
+    cw = torch.tensor([1.0, 1.0, 1.3], dtype=torch.float64)
+
+    def f(a):
+        e, x = symeig(xitorch.LinearOperator.m(_sym(a), is_hermitian=True), 3, "lowest", method="custom_exacteig")
+        return (e * cw).sum() + (W * ((x * cw) @ x.transpose(-2, -1))).sum()
+    ab = torch.stack(mats).requires_grad_()
+    gb, = torch.autograd.grad(f(ab), ab)
+    bad = []
+    for i, m in enumerate(mats):
+        a = m.clone().requires_grad_()
+        g, = torch.autograd.grad(f(a), a)
+        if not torch.isfinite(gb[i]).all() or (gb[i] - g).abs().max().item() > 1e-6 * max(1.0, g.abs().max().item()):
+            bad.append("batch element %d: gradient in the batch differs from the gradient alone by %.2e" % (i, (gb[i] - g).abs().max().item()))
+    return "; ".join(bad) if bad else None
+
+
+def decoupled_matrix():
+    """diagonal matrix: the shifted solve in the implicit backward is exactly singular"""
+    a0 = torch.diag(torch.tensor([0.3, 1.1, 2.0, 3.7], dtype=torch.float64))
+    rng = np.random.RandomState(3)
+    W = torch.tensor(rng.randn(4, 4), dtype=torch.float64)
+    W = W + W.T
+    wts = torch.tensor([1.0, 0.6], dtype=torch.float64)
+    gs = []
+    for method in ("exacteig", "custom_exacteig"):
+        a = a0.clone().requires_grad_()
+        e, x = symeig(xitorch.LinearOperator.m(_sym(a), is_hermitian=True), 2, "lowest", method=method)
+        g, = torch.autograd.grad((e * wts).sum() + (W * ((x * wts) @ x.T)).sum(), a)
+        gs.append(g)
+    err = (gs[0] - gs[1]).abs().max().item()
+    if not err <= 1e-6:
+        return "implicit and dense-path gradients differ by %.2e on a diagonal matrix" % err
+    return None
+
+
+class _MvOnly(xitorch.LinearOperator):
+    def __init__(self, mat):
+        super().__init__(shape=mat.shape, is_hermitian=False, dtype=mat.dtype, device=mat.device)
+        self.mat = mat
+
+    def _mv(self, x):
+        return torch.matmul(self.mat, x.unsqueeze(-1)).squeeze(-1)
+
+    def _getparamnames(self, prefix=""):
+        return [prefix + "mat"]
+
+
+def matrix_free_svd():
+    """svd of an operator that only defines its forward product (tall and wide): gradients against torch.linalg.svd"""
+    bad = []
+    rng = np.random.RandomState(6)
+    for (m, n) in ((3, 5), (5, 3)):
+        a0 = torch.tensor(rng.randn(m, n), dtype=torch.float64)
+        wts = torch.tensor([1.0, 0.4], dtype=torch.float64)
+        a = a0.clone().requires_grad_()
+        u, s, vh = svd(_MvOnly(a), 2, "uppest")
+        W = torch.tensor(rng.randn(m, n), dtype=torch.float64)
+        g, = torch.autograd.grad((s * wts).sum() + (W * ((u * wts) @ vh)).sum(), a)
+        b = a0.clone().requires_grad_()
+        U, S, Vh = torch.linalg.svd(b, full_matrices=False)
+        gr, = torch.autograd.grad((S[:2] * wts.flip(0)).sum() + (W * ((U[:, :2] * wts.flip(0)) @ Vh[:2])).sum(), b)
+        err = (g - gr).abs().max().item()
+        if not err <= 1e-7 * max(1.0, gr.abs().max().item()):
+            bad.append("%dx%d: gradient differs from torch.linalg.svd's by %.2e" % (m, n, err))
+    return "; ".join(bad) if bad else None
+
+
+TABLE = {"batched_partial_degeneracy": batched_partial_degeneracy, "decoupled_matrix": decoupled_matrix, "matrix_free_svd": matrix_free_svd,
+         "dense_path_gradients": dense_path_gradients, "implicit_gradients": implicit_gradients, "davidson_gradients": davidson_gradients,
          "degenerate_spectra": degenerate_spectra, "reused_option_dicts": reused_option_dicts, "svd_gradients": svd_gradients}
 
 if __name__ == "__main__":
